@@ -3,7 +3,7 @@
 From Coq Require Import NArith List.
 From Rodbus Require Import Base.Outcome.
 From Rodbus Require Base.Frame Base.ClientTypes Model.ClientRequest Model.ClientTask Model.Format
-  Spec.ClientCodecSpec Spec.SystemClientSpec Model.SystemClient Proofs.C05Proofs Proofs.ClientSystemProofs.
+  Spec.Framing Spec.ClientCodecSpec Spec.SystemClientSpec Model.SystemClient Proofs.C05Proofs Proofs.ClientSystemProofs.
 Import ListNotations.
 Module F := Rodbus.Base.Frame.
 Module CT := Rodbus.Base.ClientTypes.
@@ -31,7 +31,7 @@ Print Assumptions C11_system_encode.
    earlier replies, unsolicited frames) can be deleted from the stream without changing what the
    request's caller observes (by C04_system this is what the real pipeline delivers) *)
 Theorem C11_system_other_tx_skipped : forall mr t pre fs s fi,
-  C05Proofs.framed pre fs -> Forall (fun f => SS.tx_is t f = false) fs ->
+  Framing.framed pre fs -> Forall (fun f => SS.tx_is t f = false) fs ->
   SS.ref_client_result mr t (pre ++ s) fi = SS.ref_client_result mr t s fi.
 Proof. exact other_tx_skipped. Qed.
 Print Assumptions C11_system_other_tx_skipped.
